@@ -43,7 +43,8 @@ def tasks(tier):
             t.append((C, "site_body", dict(kind=kind, fast=fast, nn=True)))
             for bits in ([1, 1, 1, 1], [0, 0, 0, 0], [1, 0, 0, 1]) if kind == "uhf_cpmc" else ([0, 1, 0, 1], [1, 1, 0, 0]):
                 t.append((C, "bond_body", dict(kind=kind, fast=fast, bits=bits)))
-        t.append((C, "bond_body", dict(kind=kind, fast=True, bits=[1, 0, 1, 0], norb=3, bond=[2, 1])))
+        if kind == "uhf_cpmc" or tier == "thorough":        # the 3-site ghf body takes minutes: thorough tier only
+            t.append((C, "bond_body", dict(kind=kind, fast=True, bits=[1, 0, 1, 0], norb=3, bond=[2, 1])))
     t.append((C, "tail", dict(cls_name="propagator_cpmc_nn", kind="uhf_cpmc")))
     # what follows the site loop: weights *= exp(dt * E_shift) with E_shift = pop_control_ene_shift, cap, population-control update
     t.append((C, "tail", dict(cls_name="propagator_cpmc", kind="uhf_cpmc")))
